@@ -1,0 +1,18 @@
+//! Hooks into `event::request_response` (child module: sees its private items).
+//!
+//! Pass-through only. A `request_response::Event::Message::Request` cannot be built outside libp2p
+//! (its `ResponseChannel` has no public constructor), so the part of the `Cmd::Replicate` arm of
+//! `handle_req_resp_events` that acts on the request is exposed directly.
+
+use crate::SwarmDriver;
+use ant_protocol::{storage::RecordType, NetworkAddress};
+
+/// `SwarmDriver::add_keys_to_replication_fetcher` (private to `event::request_response`): what the
+/// `Request::Cmd(Cmd::Replicate { holder, keys })` arm calls with the request's `holder` and `keys`.
+pub fn add_keys_to_replication_fetcher(
+    driver: &mut SwarmDriver,
+    sender: NetworkAddress,
+    incoming_keys: Vec<(NetworkAddress, RecordType)>,
+) {
+    driver.add_keys_to_replication_fetcher(sender, incoming_keys)
+}
